@@ -574,9 +574,12 @@ Section Opt.
   Definition pre_init (k0 : list F) (va0 : list bool) : state :=
     mkState k0 va0 (map (fun _ => true) (c_tval cf)) None [] false [] [] zero (-2)%Z None [] 0.
   Definition init (k0 : list F) (va0 : list bool) : res state :=
+    (* "data0[aa] = aa.run()": the actions are run once at the raw start point before anything else *)
+    match f k0 with None => Err EUser (pre_init k0 va0) | Some _ =>
     if c_check cf then add_point 0%N (pre_init k0 va0)
     else bind (add_point 0%N (pre_init k0 va0)) (fun s1 =>
-         add_point 0%N (set_knobs s1 (clip_knobs (va s1) (c_lim cf) (knobs s1)))).
+         add_point 0%N (set_knobs s1 (clip_knobs (va s1) (c_lim cf) (knobs s1))))
+    end.
 
 End Opt.
 
